@@ -243,29 +243,41 @@ structure DumpArgs where
   exclude : Option (List S) := none
   skipDefaults : Option Bool := none      -- the `skip_defaults=` argument (none = not passed)
 
-/-- decide whether field `fi` holding `v` is emitted -/
-def fieldSkipped (eff : MetaCfg) (args : DumpArgs) (fi : FieldInfo) (v : PyVal) : Except DErr Bool := do
-  let excl := match args.exclude with | none => false | some e => e.contains fi.name
-  let skipDefaultsOn := args.skipDefaults.getD ((eff.skipDefaults.getD false) || eff.skipDefaultsIf.isSome)
-  let bydef ←
-    if skipDefaultsOn then
-      match fi.dflt with
-      | none => pure false
-      | some d =>
-        match eff.skipDefaultsIf with
-        | some c => evalCondE c v
-        | none => pure (pyEqDflt v d)
-    else pure false
-  if fi.dumpSkip then pure true
-  else
-    let byCond ←
-      match fi.skipIf with
-      | some c => evalCondE c v
-      | none =>
-        match eff.skipIf with
-        | some c => evalCondE c v
-        | none => pure false
-    pure (excl || bydef || byCond)
+def excluded (args : DumpArgs) (fi : FieldInfo) : Bool :=
+  match args.exclude with | none => false | some e => e.contains fi.name
+
+/-- is skip_defaults in force: the `skip_defaults=` argument wins over Meta (skip_defaults or a skip_defaults_if) -/
+def skipDefaultsOn (eff : MetaCfg) (args : DumpArgs) : Bool :=
+  args.skipDefaults.getD ((eff.skipDefaults.getD false) || eff.skipDefaultsIf.isSome)
+
+/-- the skip-defaults test of a defaulted field: `Meta.skip_defaults_if`, or equality with the default -/
+def defaultTest (eff : MetaCfg) (fi : FieldInfo) (v : PyVal) : Except DErr Bool :=
+  match fi.dflt with
+  | none => pure false
+  | some d =>
+    match eff.skipDefaultsIf with
+    | some c => evalCondE c v
+    | none => pure (pyEqDflt v d)
+
+/-- the field's own SkipIf condition, or else `Meta.skip_if` -/
+def ownCond (eff : MetaCfg) (fi : FieldInfo) (v : PyVal) : Except DErr Bool :=
+  match fi.skipIf with
+  | some c => evalCondE c v
+  | none =>
+    match eff.skipIf with
+    | some c => evalCondE c v
+    | none => pure false
+
+/-- decide whether field `fi` holding `v` is omitted.  Mirrors the generated `_skip_i` bookkeeping, including its
+short-circuit order: `exclude` first, then (for defaulted fields, even `dump=False` ones) the skip-defaults test,
+then the field's own condition or else `Meta.skip_if`. -/
+def fieldSkipped (eff : MetaCfg) (args : DumpArgs) (fi : FieldInfo) (v : PyVal) : Except DErr Bool :=
+  if excluded args fi then pure true
+  else do
+    let bydef ← if skipDefaultsOn eff args then defaultTest eff fi v else pure false
+    if fi.dumpSkip then pure true
+    else if bydef then pure true
+    else ownCond eff fi v
 
 /-- last lines of `cls_asdict`: add the tag entry when the class has a tag -/
 def finishInst (eff : MetaCfg) (body : List (DVal × DVal)) : DVal :=
@@ -329,7 +341,7 @@ def dumpFields (std : Std) (ts : Bool) (cfg : Option MetaCfg) (eff : MetaCfg) (a
       let here ←
         if fi.isCatchAll then
           -- catch-all: items re-emitted at top level unless equal to the default / excluded
-          let excl := match args.exclude with | none => false | some e => e.contains fi.name
+          let excl := excluded args fi
           let isDefault := match fi.dflt with | some d => pyEqDflt v d | none => false
           if excl || isDefault then pure []
           else
